@@ -489,6 +489,7 @@ class LockAnalysis:
                 on = bool(a) and R.const_of(f, a[0]) == 'T'
                 st, ok = need(st, t, 'H', n, ctx, 'bits')
                 ev('setdirty', n, ctx, token=t, flag=SET_DIRTY[cq], on=on, bad=not ok, fresh=(t in st[2]),
+                   recv_ty=(f.strip(recv) or {}).get('ty') if recv is not None else None,
                    what=None if ok else 'dirty bit of %s changed without holding its lock' % tok_str(t))
                 held, dirty, fresh, assumed, released, needs = st
                 if on:
@@ -577,6 +578,7 @@ class LockAnalysis:
                     return st
                 st, ok = need(st, t, level, n, ctx, cls)
                 ev('mutate', n, ctx, cls=cls, token=t, bad=not ok, callee=cq, level=level,
+                   recv_ty=(f.strip(recv) or {}).get('ty') if recv is not None else None,
                    dirty=frozenset(d[1] for d in st[1] if d[0] == t), fresh=(t in st[2]),
                    what=None if ok else '%s on %s %s' % (
                        cq.replace(Y, ''), tok_str(t),
